@@ -487,6 +487,154 @@ pub fn sc_tuple2_bytes(input: &[u8]) -> u32 {
     0
 }
 
+// ------------------------------------------------------------------ serialize_iterator: count handling
+/// iterator with an exact size hint of `n` that yields nothing: isolates the count prefix of
+/// serialize_iterator (generic Iterator code is outside Verus).  Contract clause (C17/C12/C04):
+/// n <= i32::MAX -> Ok and the bytes are the zig-zag varint of n; otherwise Err(LengthTooLarge);
+/// never a panic.
+pub struct FakeSized {
+    pub n: usize,
+}
+
+impl Iterator for FakeSized {
+    type Item = u8;
+    fn next(&mut self) -> Option<u8> {
+        None
+    }
+    fn size_hint(&self) -> (usize, Option<usize>) {
+        (self.n, Some(self.n))
+    }
+}
+
+pub fn sc_iter_count(input: &[u8]) -> u32 {
+    if input.len() < 8 {
+        return 0;
+    }
+    let n = ref_be(input, 8) as u64 as usize;
+    let mut rec = Rec::new();
+    let r = {
+        let mut ctx = std::mem::ManuallyDrop::new(desert_core::SerializationContext::new(RecRef(&mut rec)));
+        let mut it = FakeSized { n };
+        desert_core::serialize_iterator(&mut it, &mut *ctx)
+    };
+    if n <= i32::MAX as usize {
+        if r.is_err() {
+            return 1;
+        }
+        let mut exp = [0u8; 5];
+        let k = ref_leb(ref_zz(n as i32), &mut exp);
+        if rec.n != k {
+            return 2;
+        }
+        let mut i = 0;
+        while i < 5 {
+            if i < k && rec.buf[i] != exp[i] {
+                return 3;
+            }
+            i += 1;
+        }
+    } else {
+        match r {
+            Err(Error::LengthTooLarge) => {}
+            _ => return 4,
+        }
+    }
+    0
+}
+
+/// iterator without an exact size: -1 marker, then (1 item)*, then 0 (C12/C04)
+pub struct FakeUnsized {
+    pub left: u8,
+    pub v: u8,
+}
+
+impl Iterator for FakeUnsized {
+    type Item = u8;
+    fn next(&mut self) -> Option<u8> {
+        if self.left == 0 {
+            None
+        } else {
+            self.left -= 1;
+            Some(self.v)
+        }
+    }
+    fn size_hint(&self) -> (usize, Option<usize>) {
+        (0, None)
+    }
+}
+
+pub fn sc_iter_unknown(input: &[u8]) -> u32 {
+    if input.len() < 2 {
+        return 0;
+    }
+    let k = input[0] % 3;
+    let v = input[1];
+    let mut rec = Rec::new();
+    let r = {
+        let mut ctx = std::mem::ManuallyDrop::new(desert_core::SerializationContext::new(RecRef(&mut rec)));
+        let mut it = FakeUnsized { left: k, v };
+        desert_core::serialize_iterator(&mut it, &mut *ctx)
+    };
+    if r.is_err() {
+        return 1;
+    }
+    // var_i32(-1) == [1]; then k times [1, v]; then [0]
+    if rec.n != 2 + 2 * k as usize || rec.buf[0] != 1 {
+        return 2;
+    }
+    let mut i = 0usize;
+    while i < 2 {
+        if i < k as usize && (rec.buf[1 + 2 * i] != 1 || rec.buf[2 + 2 * i] != v) {
+            return 3;
+        }
+        i += 1;
+    }
+    if rec.buf[1 + 2 * k as usize] != 0 {
+        return 4;
+    }
+    0
+}
+
+/// read_var_u32 / read_var_i32 on the heap-owning source == the lenient reference reader
+pub fn sc_var_read_owned(input: &[u8]) -> u32 {
+    let mut val: u64 = 0;
+    let mut used = 0usize;
+    let mut complete = false;
+    while used < 5 && used < input.len() {
+        let b = input[used];
+        val |= ((b & 0x7F) as u64) << (7 * used);
+        used += 1;
+        if b & 0x80 == 0 || used == 5 {
+            complete = true;
+            break;
+        }
+    }
+    let val = val as u32;
+    let mut s = OwnedInput::new(input.to_vec());
+    let r = s.read_var_u32();
+    if complete {
+        match r {
+            Ok(x) if x == val => {}
+            _ => return 1,
+        }
+    } else if !is_eof(&r) {
+        return 2;
+    }
+    // the cursor is observed through the next byte
+    let nx = s.read_u8();
+    if used == input.len() {
+        if !is_eof(&nx) {
+            return 3;
+        }
+    } else {
+        match nx {
+            Ok(b) if b == input[used] => {}
+            _ => return 3,
+        }
+    }
+    0
+}
+
 pub type Scenario = fn(&[u8]) -> u32;
 
 /// name, function, input length the harness quantifies over, description
@@ -518,6 +666,9 @@ pub const SCENARIOS: &[(&str, Scenario, usize, &str)] = &[
     ("char_de", sc_char_de, 3, "char::deserialize contract on all inputs of length 0..=3"),
     ("duration_de", sc_duration_de, 13, "Duration::deserialize contract on all inputs of length 0..=13 (no panic on carry overflow)"),
     ("tuple2_bytes", sc_tuple2_bytes, 2, "serialize((u8,u8)) == [0,a,b] for all a,b"),
+    ("iter_count", sc_iter_count, 8, "serialize_iterator with an exact size hint n (all usize n): Ok + zig-zag varint of n iff n <= i32::MAX, else Err(LengthTooLarge), never a panic"),
+    ("iter_unknown", sc_iter_unknown, 2, "serialize_iterator without exact size: -1, (1 item)*, 0 for 0..=2 items"),
+    ("var_read_owned", sc_var_read_owned, 6, "read_var_u32 on OwnedInput == lenient reference reader, all inputs of length 0..=6"),
     ("var_read_any", sc_var_read_any, 6, "read_var_u32 == lenient reference reader on all inputs of length 0..=6"),
 ];
 
